@@ -240,14 +240,16 @@ impl Run {
             known_hit,
             wall
         );
-        if !mach.is_empty() {
-            for m in &mach {
-                eprintln!("MACHINERY: {m}");
-            }
-            return 2;
+        // a violation is an execution of the subject with its own replay artefact: it stands on its own,
+        // also when a vacuity guard or another self-check of the machinery complains in the same run
+        // (a subject that never reaches an outcome class trips the guard for that very reason)
+        for m in &mach {
+            eprintln!("MACHINERY: {m}");
         }
         if new_violations > 0 {
             1
+        } else if !mach.is_empty() {
+            2
         } else {
             0
         }
